@@ -220,7 +220,7 @@ theorem runFx_sim (a : Actor) (s : St) (f : Fx) (hx : Aux a s) :
   cases f with
   | sendSelf m => exact ⟨s, by simp [runFx, accepts_cons], apiSend_phase a m, rfl, apiSend_aux m hx⟩
   | stopSelf r =>
-    refine ⟨_, by simp [runFx, accepts_cons], apiStop_phase a r, ?_, apiStop_aux r hx⟩
+    refine ⟨_, by simp [runFx, accepts_cons], apiStop_phase a _, ?_, apiStop_aux _ hx⟩
     split <;> rfl
   | killSelf =>
     refine ⟨_, by simp [runFx, accepts_cons], apiKill_phase a, ?_, apiKill_aux hx⟩
@@ -561,7 +561,7 @@ theorem envOp_sim (a : Actor) (s : St) (op : AOp) (h : Inv a s) : Sim next Inv s
   | send m =>
     exact ⟨s, by simp [Actor.envOp, accepts_cons], Inv_api (apiSend_phase a m) rfl (apiSend_aux m) h⟩
   | stop r =>
-    refine ⟨_, by simp [Actor.envOp, accepts_cons], Inv_api (apiStop_phase a r) ?_ (apiStop_aux r) h⟩
+    refine ⟨_, by simp [Actor.envOp, accepts_cons], Inv_api (apiStop_phase a _) ?_ (apiStop_aux _) h⟩
     split <;> rfl
   | kill =>
     refine ⟨_, by simp [Actor.envOp, accepts_cons], Inv_api (apiKill_phase a) ?_ apiKill_aux h⟩
